@@ -1,13 +1,10 @@
 #![no_main]
-// bytes -> lossy UTF-8 -> C14, C01, C02, C12 (syntax side) and the lex gate of C11
+// bytes -> lossy UTF-8 -> text oracles: C14, C01, C02, C12 (syntax side), lexical gate of C11
 mod common;
 use libfuzzer_sys::fuzz_target;
-use oq3_verif_harness::textprops::oracle_text;
 
 fuzz_target!(|data: &[u8]| {
     common::init();
-    let text = String::from_utf8_lossy(data);
-    let mut fails = vec![];
-    oracle_text(&text, &mut fails);
+    let (_, fails) = oq3_verif_harness::fuzzrun::oracle("fz_text", data);
     common::judge(fails, &["C01:", "C02:", "C11:", "C12:", "C14:"]);
 });
